@@ -29,3 +29,35 @@ Theorem C06_cancel_handler_example :
   cancel_calls q 3 = [QRemove (mkPev 7 TASK_PLACEMENT (Some (3, 0)))] /\ cancel_calls q 8 = [].
 Proof. vm_compute. split; reflexivity. Qed.
 Print Assumptions C06_cancel_handler_example.
+
+(* ---- one decision of the policy as the simulator processes it (Simulator.__create_events_from_task_placement(_skip)) *)
+(* COMPLETED and CANCELLED are final also for the policy: a placed / unplaced decision for such a task changes nothing *)
+Theorem C06_decision_for_final_task_changes_nothing : forall q drop t d x,
+  s_tasks (q_sim q) t = Some x -> (t_state (t_dyn x) = TS_COMPLETED \/ t_state (t_dyn x) = TS_CANCELLED) -> d <> DCancel ->
+  decision_outcome q drop t d = DoNothing.
+Proof. exact decision_for_final_task. Qed.
+Print Assumptions C06_decision_for_final_task_changes_nothing.
+
+(* a plan is retracted only by an UNPLACED decision without --drop_skipped_tasks, for a task that has not started and has a
+   placement event pending *)
+Theorem C06_retraction_only_of_pending_plans : forall q drop t d tm,
+  decision_outcome q drop t d = DoUnschedule tm ->
+  d = DUnplaced /\ drop = false /\
+  exists x p, s_tasks (q_sim q) t = Some x /\ cancel_outcome q t = Some p /\ pe_time p = tm /\
+              (task_state_ltb (t_state (t_dyn x)) TS_SCHEDULED = true \/ t_state (t_dyn x) = TS_SCHEDULED).
+Proof. exact retraction_spec. Qed.
+Print Assumptions C06_retraction_only_of_pending_plans.
+
+(* "may fall back from SCHEDULED to its earlier state when a plan is skipped or retracted": the two calls of the retraction
+   path are accepted by the machine with the queue, the task is back in the state it was scheduled from, and one placement
+   event of the task has left the queue *)
+Theorem C06_retraction_falls_back : forall W q t x,
+  s_tasks (q_sim q) t = Some x -> t_state (t_dyn x) = TS_SCHEDULED ->
+  cur_is (q_sim q) SCHEDULER_FINISHED None = true ->
+  cancel_outcome q t <> None ->
+  exists q' x', sq_exec W q (unschedule_calls q t) = Some q' /\ s_tasks (q_sim q') t = Some x' /\
+    t_state (t_dyn x') = t_pre_scheduling_state (t_dyn x) /\
+    count_placements t (q_pending q') = (count_placements t (q_pending q) - 1)%nat /\
+    s_clock (q_sim q') = s_clock (q_sim q).
+Proof. exact unschedule_calls_accepted. Qed.
+Print Assumptions C06_retraction_falls_back.
